@@ -303,3 +303,50 @@ def r_stack_discipline(ctx, rule):
                    "%s is a %s container but is used with %s: entries are taken from the wrong end when "
                    "more than one is present" % (name, role, {m: w[0] for m, w in bad.items()}))
     ctx.require(rule, 7)
+
+
+_CONSTRUCT_MEMO = {}
+
+
+def generator_construct_of(prog, fn):
+    """Name of the Statement variant whose lowering reaches the generator function fn
+    (`ForLoop`, `SelectCase` ...): a name for a place in the generator that does not change when the
+    generator's private functions are renamed, split or merged."""
+    from .. import emit
+    key = id(prog)
+    if key not in _CONSTRUCT_MEMO:
+        table = {}
+        gens = [g for g in emit.generator_fns(prog)]
+        disp = None
+        for g in gens:
+            sws = [s for s in mir.enum_switches(prog, g.body) if s.adt.endswith("::Statement")]
+            if sws and (disp is None or len(max(sws, key=lambda s: len(s.arms)).arms) > disp[2]):
+                sw = max(sws, key=lambda s: len(s.arms))
+                disp = (g, sw, len(sw.arms))
+        if disp is not None:
+            g, sw, _n = disp
+            for v, tgt in sw.arms.items():
+                region = mir.arm_region(g.body, sw.bb, tgt)
+                roots = [prog.fns[mir.callee_of(t)] for _b, t in mir.region_calls(g.body, region)
+                         if mir.callee_of(t) in prog.fns and prog.fns[mir.callee_of(t)].crate == "rusty_basic"
+                         and prog.fns[mir.callee_of(t)] is not g]
+                seen = set()
+                st = [r.id for r in roots]
+                while st:
+                    x = st.pop()
+                    if x in seen or x == g.id:
+                        continue
+                    seen.add(x)
+                    f2 = prog.fns.get(x)
+                    if f2 is None or f2.crate != "rusty_basic" or "instruction_generator" not in f2.id:
+                        continue
+                    for c in prog.call_edges(f2):
+                        st.append(c)
+                for x in seen:
+                    table.setdefault(x, set()).add(v)
+        _CONSTRUCT_MEMO[key] = table
+    vs = _CONSTRUCT_MEMO[key].get(fn.id, set())
+    # helpers shared by every construct (label(), push(), visit()) belong to none in particular
+    if not vs or len(vs) > 3:
+        return fn.name
+    return "+".join(sorted(vs))
